@@ -128,85 +128,118 @@ func VerifC10_ListenerAllowed() {
 }
 
 // VerifC10_ParentRefs: a route is offered only to parents that are Gateways (group/kind defaults
-// applied) of this controller's class, looked up in the parentRef namespace or the route's own;
-// the sectionName is handed through unchanged.
+// applied) of this controller's class, each looked up in its own parentRef namespace or, when
+// that is absent, the route's namespace - whatever the other parentRefs of the route say; the
+// sectionName is handed through unchanged.
 func VerifC10_ParentRefs() {
-	ours := &gatewayv1.Gateway{ObjectMeta: metav1.ObjectMeta{Namespace: "gwns", Name: "gw"}}
-	ours.Spec.Listeners = []gatewayv1.Listener{{Name: "l1"}, {Name: "l2"}}
+	mkgw := func(ns string) *gatewayv1.Gateway {
+		g := &gatewayv1.Gateway{ObjectMeta: metav1.ObjectMeta{Namespace: ns, Name: "gw"}}
+		g.Spec.Listeners = []gatewayv1.Listener{{Name: "l1"}, {Name: "l2"}}
+		return g
+	}
 	cache := &zzCache{gateways: map[string]*gatewayv1.Gateway{}}
-	if nd.Bool("gw.ours") {
-		cache.gateways["gwns/gw"] = ours
+	for _, ns := range []string{"gwns", "other", "elsewhere"} {
+		if nd.Bool("gw.ours." + ns) {
+			cache.gateways[ns+"/gw"] = mkgw(ns)
+		}
 	}
 	cache.gwErr = nd.Bool("gw.err")
 	c := &converter{logger: zzLogger{}, cache: cache}
 	routens := []string{"gwns", "other"}[nd.Choice("route.ns", 2)]
 	route := &source{kind: "HTTPRoute", namespace: routens, name: "r"}
 
-	ref := gatewayv1.ParentReference{Name: "gw"}
-	groupOK, kindOK := true, true
-	switch nd.Choice("ref.group", 4) {
-	case 1:
-		g := gatewayv1.Group("")
-		ref.Group = &g
-	case 2:
-		g := gatewayv1.Group(gatewayv1.GroupName)
-		ref.Group = &g
-	case 3:
-		g := gatewayv1.Group("example.com")
-		ref.Group = &g
-		groupOK = false
+	nrefs := 1 + nd.Choice("refs", 2)
+	// with two refs the quick tier drops the empty-string spellings of the defaults and all
+	// but one section name (FULL=0); a single ref always gets every spelling
+	full := nrefs == 1 || nd.Param("FULL", 1) == 1
+	pick := func(name string, n int) int {
+		if full {
+			return nd.Choice(name, n)
+		}
+		return []int{0, 2, 3}[nd.Choice(name, 3)]
 	}
-	switch nd.Choice("ref.kind", 4) {
-	case 1:
-		k := gatewayv1.Kind("")
-		ref.Kind = &k
-	case 2:
-		k := gatewayv1.Kind("Gateway")
-		ref.Kind = &k
-	case 3:
-		k := gatewayv1.Kind("Service")
-		ref.Kind = &k
-		kindOK = false
+	var refs []gatewayv1.ParentReference
+	var wantNS []string // namespace each supported ref must be looked up in
+	var sections []*gatewayv1.SectionName
+	for k := 0; k < nrefs; k++ {
+		ref := gatewayv1.ParentReference{Name: "gw"}
+		groupOK, kindOK := true, true
+		switch pick("ref.group", 4) {
+		case 1:
+			g := gatewayv1.Group("")
+			ref.Group = &g
+		case 2:
+			g := gatewayv1.Group(gatewayv1.GroupName)
+			ref.Group = &g
+		case 3:
+			g := gatewayv1.Group("example.com")
+			ref.Group = &g
+			groupOK = false
+		}
+		switch pick("ref.kind", 4) {
+		case 1:
+			k := gatewayv1.Kind("")
+			ref.Kind = &k
+		case 2:
+			k := gatewayv1.Kind("Gateway")
+			ref.Kind = &k
+		case 3:
+			k := gatewayv1.Kind("Service")
+			ref.Kind = &k
+			kindOK = false
+		}
+		lookupNS := routens
+		switch nd.Choice("ref.ns", 4) {
+		case 1:
+			n := gatewayv1.Namespace("")
+			ref.Namespace = &n
+		case 2:
+			n := gatewayv1.Namespace("gwns")
+			ref.Namespace = &n
+			lookupNS = "gwns"
+		case 3:
+			n := gatewayv1.Namespace("elsewhere")
+			ref.Namespace = &n
+			lookupNS = "elsewhere"
+		}
+		var section *gatewayv1.SectionName
+		if nd.Bool("ref.section") {
+			nsec := 3
+			if !full {
+				nsec = 1
+			}
+			s := gatewayv1.SectionName([]string{"l1", "l2", "nope"}[nd.Choice("ref.sectionname", nsec)])
+			section = &s
+			ref.SectionName = section
+		}
+		refs = append(refs, ref)
+		if groupOK && kindOK {
+			wantNS = append(wantNS, lookupNS)
+			sections = append(sections, section)
+		}
 	}
-	lookupNS := routens
-	switch nd.Choice("ref.ns", 4) {
-	case 1:
-		n := gatewayv1.Namespace("")
-		ref.Namespace = &n
-	case 2:
-		n := gatewayv1.Namespace("gwns")
-		ref.Namespace = &n
-		lookupNS = "gwns"
-	case 3:
-		n := gatewayv1.Namespace("elsewhere")
-		ref.Namespace = &n
-		lookupNS = "elsewhere"
-	}
-	var section *gatewayv1.SectionName
-	if nd.Bool("ref.section") {
-		s := gatewayv1.SectionName([]string{"l1", "l2", "nope"}[nd.Choice("ref.sectionname", 3)])
-		section = &s
-		ref.SectionName = section
-	}
-	calls := 0
-	var gotSection *gatewayv1.SectionName
-	var gotGW *gatewaySource
-	c.syncRoute(route, []gatewayv1.ParentReference{ref}, &gatewayv1.Gateway{}, func(g *gatewaySource, sn *gatewayv1.SectionName) error {
-		calls++
-		gotGW, gotSection = g, sn
+	var gotGW []*gatewaySource
+	var gotSection []*gatewayv1.SectionName
+	c.syncRoute(route, refs, &gatewayv1.Gateway{}, func(g *gatewaySource, sn *gatewayv1.SectionName) error {
+		gotGW, gotSection = append(gotGW, g), append(gotSection, sn)
 		return nil
 	})
-	want := groupOK && kindOK && !cache.gwErr && cache.gateways[lookupNS+"/gw"] != nil
-	nd.Assert((calls == 1) == want && calls <= 1, "route-offered-only-to-own-class-gateway-parents")
-	if !groupOK || !kindOK {
-		nd.Assert(len(cache.reads) == 0, "foreign-parent-kind-not-even-read")
+	// every supported ref is looked up once, in its own namespace, in order
+	nd.Assert(len(cache.reads) == len(wantNS), "one-lookup-per-gateway-parent")
+	var wantOffers []string
+	var wantSections []*gatewayv1.SectionName
+	for k, ns := range wantNS {
+		nd.Assert(cache.reads[k] == ns+"/gw", "gateway-looked-up-in-the-right-namespace")
+		if !cache.gwErr && cache.gateways[ns+"/gw"] != nil {
+			wantOffers = append(wantOffers, ns)
+			wantSections = append(wantSections, sections[k])
+		}
 	}
-	for _, r := range cache.reads {
-		nd.Assert(r == lookupNS+"/gw", "gateway-looked-up-in-the-right-namespace")
-	}
-	if calls == 1 {
-		nd.Assert(gotGW.namespace == "gwns" && gotGW.name == "gw" && len(gotGW.spec.Listeners) == 2, "gateway-source-is-the-referenced-gateway")
-		nd.Assert((gotSection == nil) == (section == nil) && (section == nil || *gotSection == *section), "section-name-passed-through")
+	nd.Assert(len(gotGW) == len(wantOffers), "route-offered-only-to-own-class-gateway-parents")
+	for k := range wantOffers {
+		nd.Assert(gotGW[k].namespace == wantOffers[k] && gotGW[k].name == "gw" && len(gotGW[k].spec.Listeners) == 2, "gateway-source-is-the-referenced-gateway")
+		s := wantSections[k]
+		nd.Assert((gotSection[k] == nil) == (s == nil) && (s == nil || *gotSection[k] == *s), "section-name-passed-through")
 		nd.Reach("offered")
 	}
 	nd.Reach("end")
